@@ -6,7 +6,7 @@ TR = ['C06_Flags', 'C06_Ctl', 'C06_Blocked']
 
 
 def run(tier):
-    f = vise.Family(PID, tier, MC, TR, ['flags', 'nav', 'ends'], modes=('L', 'P'))
+    f = vise.Family(PID, tier, MC, TR, ['flags', 'nav', 'ends', 'wideflags', 'rempty'], modes=('L', 'P'))
     f.out.assumptions = ['external results (FlagSet/FlagReset incl. reserved indices) logged by the recording resource',
                          'READIN/INMATCH are judged by C03, not here']
     t = f.thorough
